@@ -391,7 +391,7 @@ func Forall(bound []*Term, body *Term, pats ...*Term) *Term {
 		if t, ok := expandSmallRange(bound, body, true); ok {
 			return t
 		}
-		vs := reindexVariants(bound, body)
+		vs := reindexVariants(bound, body, reindexAllBound)
 		if len(vs) > 1 {
 			var cs []*Term
 			for k, v := range vs {
@@ -418,7 +418,7 @@ func Exists(bound []*Term, body *Term) *Term {
 	if t, ok := expandSmallRange(bound, body, false); ok {
 		return t
 	}
-	if vs := reindexVariants(bound, body); len(vs) > 1 {
+	if vs := reindexVariants(bound, body, false); len(vs) > 1 {
 		body = vs[1]
 	}
 	return &Term{Op: "exists", S: SBool, Bound: bound, Args: []*Term{body}}
@@ -753,7 +753,12 @@ func reindexBody(t *Term, b *Term, rest *Term) *Term {
 
 // reindexVariants returns equivalent bodies of a quantifier over `bound`, one per distinct offset c found in
 // array indices of the shape c + b (b bound): in variant c every such index is the bare variable.
-func reindexVariants(bound []*Term, body *Term) []*Term {
+// reindexAllBound: universal quantifiers get variants for every bound variable (each re-indexed on its own), not only
+// for the first one that has an offset index: a hypothesis such as canonOrder (rows i_, positions p_) must be
+// matchable from a bare position term as well as from a bare row term.
+var reindexAllBound = true
+
+func reindexVariants(bound []*Term, body *Term, all bool) []*Term {
 	out := []*Term{body}
 	for _, b := range bound {
 		var idxs []*Term
@@ -780,7 +785,7 @@ func reindexVariants(bound []*Term, body *Term) []*Term {
 		for _, r := range rests {
 			out = append(out, reindexBody(body, b, r))
 		}
-		if len(rests) > 0 {
+		if len(rests) > 0 && !all {
 			break // one bound variable is re-indexed per quantifier
 		}
 	}
